@@ -135,11 +135,17 @@ Proof.
       * rewrite E. apply negb_true_iff. destruct (c_status c); simpl; congruence.
 Qed.
 
+Lemma filter_all_id {A} (p : A -> bool) l : (forall x, In x l -> p x = true) -> filter p l = l.
+Proof.
+  induction l; intros H; simpl; [reflexivity|].
+  rewrite (H a) by (left; reflexivity). f_equal. apply IHl. intros x Hx. apply H. right. assumption.
+Qed.
+
 Lemma filter_not_self_group st cs i :
   filter (fun j => negb (Nat.eqb j i)) (group st cs i) = match st with OneForOne => [] | OneForAll => siblings cs i end.
 Proof.
   destruct st; simpl; rewrite Nat.eqb_refl; simpl; [reflexivity|].
-  apply forallb_filter_id. apply forallb_forall. intros j Hj.
+  apply filter_all_id. intros j Hj.
   apply negb_true_iff, Nat.eqb_neq. intro; subst. eapply siblings_not_self; eassumption.
 Qed.
 
@@ -207,8 +213,8 @@ Qed.
 Lemma quiescent_step_refines keep cfg fam f picks :
   quiescent_step keep cfg (init_istate fam) (f, picks) = init_istate (supervise keep cfg fam f).
 Proof.
-  unfold quiescent_step, init_istate, supervise. cbn [fst snd].
-  unfold impl_step at 2. unfold notify_parent. cbn [i_fam i_inbox i_tasks].
+  unfold quiescent_step, init_istate, supervise. cbn [fst snd impl_step].
+  unfold notify_parent. cbn [i_fam i_inbox i_tasks].
   destruct (is_running (f_children fam) (fl_child f)) eqn:Hrun; cbn [negb].
   2:{ cbn. destruct fam; reflexivity. }
   destruct (directive_of (cfg (fl_child f)) (fl_ety f)) as [[| | |]|] eqn:Hd.
@@ -223,18 +229,13 @@ Proof.
     destruct (budget_exhausted (cfg (fl_child f)) (faults_at cs2 (fl_child f))) eqn:Hb.
     + cbn [i_tasks length drain i_fam].
       f_equal. f_equal.
-      subst g. rewrite filter_not_self_group.
-      destruct (s_strategy (cfg (fl_child f))); cbn [group].
-      * cbn. symmetry. apply upd_id. intros x Hx.
-        assert (Hs : option_map c_status (nth_error cs2 (fl_child f)) = Some Suspended).
-        { subst cs2. rewrite status_upd_many_record. subst cs1. rewrite nth_error_upd_same.
-          unfold is_running in Hrun. destruct (nth_error (f_children fam) (fl_child f)); [reflexivity|discriminate]. }
-        rewrite Hx in Hs. simpl in Hs. inversion Hs as [Hs']. rewrite Hs'. reflexivity.
-      * rewrite upd_many_cons. f_equal. symmetry. apply upd_id. intros x Hx.
-        assert (Hs : option_map c_status (nth_error cs2 (fl_child f)) = Some Suspended).
-        { subst cs2. rewrite status_upd_many_record. subst cs1. rewrite nth_error_upd_same.
-          unfold is_running in Hrun. destruct (nth_error (f_children fam) (fl_child f)); [reflexivity|discriminate]. }
-        rewrite Hx in Hs. simpl in Hs. inversion Hs as [Hs']. rewrite Hs'. reflexivity.
+      assert (Hs : option_map c_status (nth_error cs2 (fl_child f)) = Some Suspended).
+      { subst cs2. rewrite status_upd_many_record. subst cs1. rewrite nth_error_upd_same.
+        unfold is_running in Hrun. destruct (nth_error (f_children fam) (fl_child f)); [reflexivity|discriminate]. }
+      assert (Hid : upd cs2 (fl_child f) (fun c => match c_status c with Running => suspend_child c | _ => c end) = cs2).
+      { apply upd_id. intros x Hx. rewrite Hx in Hs. simpl in Hs. inversion Hs as [Hs']. rewrite Hs'. reflexivity. }
+      clearbody cs2. subst g. rewrite filter_not_self_group.
+      destruct (s_strategy (cfg (fl_child f))); cbn [group]; rewrite upd_many_cons, Hid; reflexivity.
     + cbn [i_tasks app].
       rewrite drain_any_order; [reflexivity| subst g; apply group_NoDup | lia].
   - (* escalate *) cbn. reflexivity.
@@ -248,6 +249,20 @@ Lemma quiescent_run_refines keep cfg fam (fs : list (failure * list nat)) :
 Proof.
   revert fam; induction fs as [|[f p] fs IH]; intros fam; [reflexivity|].
   cbn [fold_left map fst]. rewrite quiescent_step_refines. apply IH.
+Qed.
+
+(* every sequence of failures, user messages and reinstatements *)
+Lemma impl_ops_refine keep cfg fam (ops : list (op * list nat)) :
+  fold_left (impl_op keep cfg) ops (init_istate fam) =
+  init_istate (fold_left (spec_op keep cfg) (map fst ops) fam).
+Proof.
+  revert fam; induction ops as [|[o p] ops IH]; intros fam; [reflexivity|].
+  cbn [fold_left map fst]. replace (impl_op keep cfg (init_istate fam) (o, p)) with (init_istate (spec_op keep cfg fam o)).
+  - apply IH.
+  - unfold impl_op. cbn [fst snd]. destruct o; cbn [spec_op].
+    + symmetry. apply quiescent_step_refines.
+    + reflexivity.
+    + reflexivity.
 Qed.
 
 (* ------------------------------------------------------------------ directive lookup *)
@@ -323,7 +338,7 @@ Proof.
   replace (Nat.eqb kPanicNil kAny) with false in HA by reflexivity.
   rewrite HA. destruct (last_rule kAny opts None) as [d|] eqn:EA.
   - cbn [s_table lookup]. destruct (Nat.eqb kAny e); reflexivity.
-  - rewrite HA, EA. rewrite lookup_fold. rewrite last_rule_acc.
+  - rewrite HA. rewrite lookup_fold. rewrite last_rule_acc.
     destruct (last_rule e opts None); [reflexivity|].
     cbn [default_sup s_table lookup]. unfold default_rule.
     rewrite (Nat.eqb_sym kPanic e), (Nat.eqb_sym kPanicNil e).
@@ -377,7 +392,7 @@ Proof.
   intros Hc Hs Hd. unfold supervise.
   assert (Hr : is_running (f_children fam) (fl_child f) = true) by (apply is_running_spec; eauto).
   rewrite Hr, Hd. cbn. unfold child_at in *. cbn. repeat split.
-  - exists (set_skip c). rewrite nth_error_upd_same, Hc. cbn. rewrite Hs. repeat split; reflexivity.
+  - exists (set_skip c). rewrite nth_error_upd_same, Hc. unfold ping_child, set_skip. cbn. rewrite Hs. cbn. repeat split; reflexivity.
   - intros j Hj. apply nth_error_upd_other. congruence.
 Qed.
 
@@ -463,7 +478,7 @@ Lemma supervise_restart keep cfg fam f c :
   (* the child runs again with fresh state: PreStart ran once more, restart count bumped *)
   (exists c', child_at fam' (fl_child f) = Some c' /\ c_status c' = Running /\
               c_gen c' = c_gen c + 1 /\ c_mem c' = 0 /\ c_restarts c' = c_restarts c + 1 /\
-              c_faults c' = faults_after (cfg (fl_child f)) c (fl_now f)) /\
+              c_faults c' = faults_after (cfg (fl_child f)) c (fl_now f) /\ c_last c' = fl_now f) /\
   f_escal fam' = f_escal fam /\
   (forall j cj, j <> fl_child f -> child_at fam j = Some cj ->
      match s_strategy (cfg (fl_child f)) with
@@ -554,6 +569,15 @@ Qed.
 
 (* ------------------------------------------------------------------ the budget over unboundedly many failures *)
 
+Lemma last_cons_default {A} (l : list A) x d d' : last (x :: l) d = last (x :: l) d'.
+Proof. revert x; induction l as [|a l IH]; intros x; [reflexivity|]. change (last (a :: l) d = last (a :: l) d'). apply IH. Qed.
+
+Lemma gtb_false a b : a <= b -> (a >? b) = false.
+Proof. intros. rewrite Z.gtb_ltb. apply Z.ltb_ge. lia. Qed.
+Lemma gtb_true a b : b < a -> (a >? b) = true.
+Proof. intros. rewrite Z.gtb_ltb. apply Z.ltb_lt. lia. Qed.
+
+
 (* consecutive failures of one one-for-one child whose error maps to Restart *)
 Definition fails (i : nat) (e : ety) (nows : list Z) : list failure := map (mkFail i e) nows.
 
@@ -604,26 +628,18 @@ Proof.
     assert (Hfa : faults_after s c t = c_faults c + 1).
     { unfold faults_after, record_fault. cbn [c_faults].
       replace ((window_of s >? 0) && (c_last c >? 0) && (t - c_last c >? window_of s)) with false; [reflexivity|].
-      symmetry. apply andb_false_iff. right. apply Z.gtb_ltb, Z.ltb_ge. lia. }
+      symmetry. apply andb_false_iff. right. apply gtb_false. lia. }
     assert (Hb : budget_exhausted s (faults_after s c t) = false).
-    { unfold budget_exhausted. rewrite Hfa. apply andb_false_iff. right. apply Z.gtb_ltb, Z.ltb_ge.
+    { unfold budget_exhausted. rewrite Hfa. apply andb_false_iff. right. apply gtb_false.
       cbn [length] in Hle. lia. }
-    destruct (supervise_restart keep cfg fam f c Hc Hs Hd Hb) as [[c1 [Hc1 [Hs1 [Hg1 [_ [Hr1 Hf1]]]]]] _].
-    assert (Hl1 : c_last c1 = t).
-    { unfold supervise, child_at in Hc1.
-      assert (Hr : is_running (f_children fam) i = true) by (apply is_running_spec; eauto).
-      cbn [fl_child f] in Hc1. rewrite Hr in Hc1. cbn [negb fl_ety f] in Hc1. fold s in Hc1. rewrite Hd in Hc1.
-      pose proof (faults_at_after cfg fam f c Hc) as Hfa'. cbn [fl_child fl_now f] in Hfa'. fold s in Hfa'.
-      cbn [fl_now f] in Hc1. rewrite Hfa', Hb in Hc1. cbn [f_children] in Hc1.
-      rewrite Hst in Hc1. cbn [group] in Hc1.
-      unfold upd_many in Hc1. cbn [fold_left] in Hc1. rewrite !nth_error_upd_same in Hc1.
-      unfold child_at in Hc. rewrite Hc in Hc1. cbn in Hc1. inversion Hc1. rewrite Hs. reflexivity. }
+    destruct (supervise_restart keep cfg fam f c Hc Hs Hd Hb) as [[c1 [Hc1 [Hs1 [Hg1 [_ [Hr1 [Hf1 Hl1]]]]]]] _].
+    cbn [fl_now f] in Hl1.
     specialize (IH (supervise keep cfg fam f) c1 t Hc1 Hs1 Hl1 Hg).
     assert (Hf1' : c_faults c1 = c_faults c + 1) by (rewrite Hf1; exact Hfa).
     destruct IH as [c' [Hc' [[Ha [Hb' [Hc'' Hd']]] He]]]; [lia| cbn [length] in Hle; lia |].
     exists c'. split; [exact Hc'|]. split.
     + unfold restarted_times. cbn [length]. repeat split; auto; lia.
-    + cbn [last]. destruct r; [cbn in *; congruence|exact He].
+    + cbn [last]. destruct r; [cbn in *; congruence|rewrite He; apply last_cons_default].
 Qed.
 
 Lemma budget_exhaust_next keep cfg i e fam c t (s := cfg i) :
@@ -638,10 +654,10 @@ Proof.
   assert (Hfa : faults_after s c t = c_faults c + 1).
   { unfold faults_after, record_fault. cbn [c_faults].
     replace ((window_of s >? 0) && (c_last c >? 0) && (t - c_last c >? window_of s)) with false; [reflexivity|].
-    symmetry. apply andb_false_iff. right. apply Z.gtb_ltb, Z.ltb_ge. lia. }
+    symmetry. apply andb_false_iff. right. apply gtb_false. lia. }
   assert (Hb : budget_exhausted s (faults_after s c t) = true).
   { unfold budget_exhausted. rewrite Hfa. apply andb_true_iff. split; [apply andb_true_iff; split|];
-      apply Z.gtb_ltb, Z.ltb_lt; lia. }
+      apply gtb_true; lia. }
   destruct (supervise_budget_exhausted keep cfg fam (mkFail i e t) c Hc Hs Hd Hb) as [[c' [H1 [H2 [H3 H4]]]] _].
   exists c'. auto.
 Qed.
@@ -674,8 +690,8 @@ Proof.
   - cbn [fails map fold_left]. set (f := mkFail i e t).
     assert (Hb : budget_exhausted s (faults_after s c t) = false).
     { unfold budget_exhausted. destruct Hno as [H|H].
-      - replace (s_maxRetries s >? 0) with false; [reflexivity|]. symmetry. apply Z.gtb_ltb, Z.ltb_ge. lia.
-      - replace (window_of s >? 0) with false; [apply andb_false_r|]. symmetry. apply Z.gtb_ltb, Z.ltb_ge. lia. }
+      - replace (s_maxRetries s >? 0) with false; [reflexivity|]. symmetry. apply gtb_false. lia.
+      - replace (window_of s >? 0) with false; [rewrite andb_false_r; reflexivity|]. symmetry. apply gtb_false. lia. }
     destruct (supervise_restart keep cfg fam f c Hc Hs Hd Hb) as [[c1 [Hc1 [Hs1 [Hg1 [_ [Hr1 _]]]]]] _].
     destruct (IH (supervise keep cfg fam f) c1 Hc1 Hs1) as [c' [Hc' [Ha [Hb' Hc'']]]].
     exists c'. cbn [length]. repeat split; auto; lia.
